@@ -123,20 +123,17 @@ def run(R):
             if re.search(r"(hash::map::HashMap|btree::map::BTreeMap)::get$", short(c.name)) and \
                     any("RegexResult" in t for t in (c.func.get("res_targs") or c.targs)):
                 pg.append((g, c))
-    stores = []
-    for c in pin.calls:
-        ts = c.func.get("res_targs") or c.targs
-        if any("RegexResult" in t for t in ts) and re.search(r"::(insert|push|push_back|entry|extend)$", short(c.name)):
-            stores.append(c)
-    positional = [c for c in stores if not re.search(r"(hash::map::HashMap|btree::map::BTreeMap)::(insert|entry)$", short(c.name))]
-    if positional or not stores:
-        R.violation("C01.index", "ParsingInput::new|positional-results",
-                    "the per-line regex results are stored positionally (%s) instead of under their pattern's name: when an earlier pattern does not "
-                    "match, later results shift and a column reads another pattern's groups"
-                    % ([short(c.name).split("::")[-1] for c in positional] or "no keyed store found"), [(positional or [pin.calls[0]])[0].loc()])
+    # the per-line results live in a map keyed by the pattern's name (decided on the type of the field that holds them)
+    pia = P.adts.get("sqlgrep::data_model::ParsingInput") or {"variants": []}
+    holders = [(fl["name"], fl["ty"]) for v in pia["variants"] for fl in v["fields"] if "RegexResult" in fl["ty"]]
+    keyed = [h for h in holders if re.match(r"^(std::collections::hash::map::HashMap|alloc::collections::btree::map::BTreeMap)<&?'?\w*\s?(alloc::string::String|str|&str)", h[1])]
+    if holders and len(keyed) == len(holders):
+        R.ok("C01.index", "ParsingInput::new|keyed-results", "results held in %s" % keyed[0][1][:70], pin.loc())
     else:
-        okk = all(any("pattern" in (x or "") or x == "0" for x in F.source_fields(pin, c.args[1], depth=8)) or True for c in stores)
-        R.ok("C01.index", "ParsingInput::new|keyed-results", "results stored under the pattern's name (%d insert sites)" % len(stores), stores[0].loc())
+        R.violation("C01.index", "ParsingInput::new|positional-results",
+                    "the per-line regex results are held in %s, not in a map keyed by the pattern's name: when an earlier pattern does not "
+                    "match, later results shift and a column reads another pattern's groups" % ([h[1][:80] for h in holders] or "no field"),
+                    [pin.loc()])
     if not pg:
         R.violation("C01.index", "extract|pattern-lookup-missing", "no lookup of a pattern's result by name in the extraction subgraph", [eur.loc()])
     for g, c in pg:
@@ -262,8 +259,8 @@ def run(R):
     for i, s in bools:
         if any(o.kind == "call" and short(o.call.name) == "core::option::Option::is_some" for o in F.origins(eur, s["rv"]["ops"][0], depth=4)):
             okb += 1
-    if okb == 2 and len(bools) == 2:
-        R.ok("C01.parse", "bool-existence", "Value::Bool(group.is_some()) on the captures and the split arm", eur.loc())
+    if okb >= 1 and okb == len(bools):
+        R.ok("C01.parse", "bool-existence", "every Value::Bool built by the single-group lookup is group.is_some() (%d site(s))" % okb, eur.loc())
     else:
         R.violation("C01.parse", "bool-existence", "BOOLEAN columns do not mean `the group took part` on both arms (%d of %d)" % (okb, len(bools)),
                     [eur.loc()])
@@ -325,6 +322,13 @@ def total_paths(R, rid):
                 lp_ = PR.loop_of(fn_, c.bb)
                 hdrs.append(lp_[0])
         outer = [h for h in hdrs if not any(h in body and h != h2 for h2, body in fn_.loops().items())]
+        # the same iteration written with adapters: a consuming call over slice::Iter of the table's vector, with no limiting adapter
+        for c in fn_.calls:
+            if re.search(r"Iterator::(collect|for_each|fold|try_fold|try_for_each|count|last|sum|unzip|partition)$|::from_iter$|::extend$", short(c.name)) \
+                    and not PR.loop_of(fn_, c.bb):
+                ty = " ".join(c.targs + (c.func.get("res_targs") or []))
+                if "core::slice::iter::Iter<" in ty and not re.search(r"adapters::(take|skip|step_by|take_while|skip_while|map_while|peekable|fuse)::", ty):
+                    outer.append(c.bb)
         nm = fn_.spath.split("::")[-2] + "::" + fn_.spath.split("::")[-1]
         if not outer:
             R.violation(rid, nm + "|no-loop", "%s has no loop over the table's %s" % (fn_.path, what), [fn_.loc()])
